@@ -655,3 +655,110 @@ def rule_wordalg_thumb(ctx, cfg, outdir, rule='R-WORDALG', prog=None):
                    '%s (%s): %s' % (name, pname, ' ;; '.join(x[:900] for x in msgs[:2])), cfg=cfg,
                    sample=dict(config=cfg, routine=name, aliasing=pname, paths=npaths, atoms=natoms, specification=THUMB_SPEC_TEXT[suf]))
     return n
+
+
+# ---------------------------------------------------------------------------------------------- footprint view (R-ASM, R-SIBLING/asm, R-ALIAS)
+class FootprintThumb(ThumbMachine):
+    """the same interpreter, logging every memory access and register write in the form asmcheck.Routine expects"""
+
+    def __init__(self, insns, order, entry, args, R):
+        super().__init__(insns, order, entry, args)
+        self.R = R
+        self.cur = None
+
+    def ld(self, st, base, off, ins):
+        self.log('R', base, off, ins)
+        return super().ld(st, base, off, ins)
+
+    def stw(self, st, base, off, val, ins):
+        self.log('W', base, off, ins)
+        if base[0] != 'sp' and not isinstance(val, ZPoly):
+            # saving a callee-saved register into an argument object would be flagged by the value analysis; here only the footprint
+            st.mem[(self.region(base[1]), base[2] + off)] = ZERO
+            return
+        return super().stw(st, base, off, val, ins)
+
+    def log(self, kind, base, off, ins):
+        if base[0] == 'sp':
+            self.R.accesses.append(asmcheck.Access(ins.addr, kind, 'sp', base[1] + off, 4, ins.text.split('\t', 1)[-1].strip()))
+            self.R.min_sp = min(self.R.min_sp, base[1] + off)
+        else:
+            self.R.accesses.append(asmcheck.Access(ins.addr, kind, 'arg%d' % base[1], base[2] + off, 4, ins.text.split('\t', 1)[-1].strip()))
+
+    def step(self, st, ins):
+        before = dict(st.regs)
+        if ins.mnem == 'bl' and getattr(ins, 'reloc', None) == self.TRAMPOLINE:
+            # effect of the trampoline (FpBase<384>::reduce(res, a, p)): reads a and p, writes every byte of res
+            r0, r1, r2 = st.regs.get('r0'), st.regs.get('r1'), st.regs.get('r2')
+            for (kind, ptr) in (('R', r1), ('R', r2), ('W', r0)):
+                if isinstance(ptr, tuple) and ptr[0] in ('p', 'sp'):
+                    for i in range(12):
+                        self.log(kind, ptr, 4 * i, ins)
+                else:
+                    self.R.problems.append('the final reduction is called with an untracked pointer at %#x' % ins.addr)
+        super().step(st, ins)
+        sp = st.regs.get('sp')
+        if isinstance(sp, tuple) and sp[0] == 'sp':
+            self.R.min_sp = min(self.R.min_sp, sp[1])
+        w = set()
+        fw = {}
+        for r, v in st.regs.items():
+            if before.get(r) is not v and before.get(r) != v:
+                w.add(r)
+                if isinstance(v, ZPoly) and not v.is_const() and all(self.world.atoms[a]['kind'] in ('carry', 'borrow') for a in v.atoms()):
+                    lo, hi = self.world.rng(v)
+                    fw[r] = bool(lo >= 0 and hi <= 1)
+        # a register rewritten with an equal value still counts as written when it is a destination operand
+        if ins.ops and ins.mnem not in ('str', 'stm', 'push', 'cmp', 'bl', 'bx') and ins.ops[0].rstrip('!') in st.regs and ins.mnem not in ('ldm',):
+            d = ins.ops[0]
+            w.add(d)
+            v = st.regs.get(d)
+            if isinstance(v, ZPoly) and not v.is_const() and all(self.world.atoms[a]['kind'] in ('carry', 'borrow') for a in v.atoms()):
+                lo, hi = self.world.rng(v)
+                fw[d] = bool(lo >= 0 and hi <= 1)
+        self.R.regw[ins.addr] = w
+        self.R.flagw[ins.addr] = fw
+
+
+def analyse_thumb(insns, order, entry, name):
+    R = asmcheck.Routine(name)
+    suf, sp = spec_for(name)
+    kinds = sp[0] if sp is not None else ('ptr', 'ptr', 'ptr', 'ptr')
+    m = FootprintThumb(insns, order, entry, kinds, R)
+    try:
+        finals = m.run()
+    except Unsupported as e:
+        R.problems.append('not modelled: %s' % e)
+        return R
+    idx = {a: i for i, a in enumerate(order)}
+    # straight-line flow from the entry to the return
+    a = entry
+    end = None
+    st = finals[0]
+    while a is not None:
+        ins = insns[a]
+        R.insn_count += 1
+        nxt = order[idx[a] + 1] if idx[a] + 1 < len(order) else None
+        if ins.mnem == 'bx' or (ins.mnem == 'pop' and 'pc' in reglist(ins.ops[0])):
+            R.succ[a] = []
+            R.ret_addrs.append(a)
+            R.rets += 1
+            R.regw.setdefault(a, set())
+            break
+        R.succ[a] = [nxt] if nxt is not None else []
+        R.regw.setdefault(a, set())
+        a = nxt
+    R.problems += frame_ok(st, True)
+    # words of the caller's frame that are read: stack-passed arguments (AAPCS: the fifth word argument is at the entry sp), and loads
+    # whose value reaches nothing the routine produces
+    R.stack_arg_bytes = 4 * max(0, len(kinds) - 4)
+    outs = [v for (k, v) in st.mem.items() if k[0] != 'sp' and isinstance(v, ZPoly)]
+    if isinstance(st.regs.get('r0'), ZPoly):
+        outs.append(st.regs['r0'])
+    if st.call:
+        outs += [v for v in st.call['V'] if isinstance(v, ZPoly)]
+    used = set()
+    for v in outs:
+        used |= m.world.expand(v).atoms()
+    R.dead_caller_reads = {acc.off for acc in R.accesses if acc.base == 'sp' and acc.kind == 'R' and acc.off >= R.stack_arg_bytes and ('STK_%d' % acc.off) not in used}
+    return R
